@@ -2,11 +2,12 @@
    byte and spec_float stay extracted inductives. *)
 From Coq Require Import ExtrOcamlBasic.
 From Coq Require Import List ZArith Strings.Byte Floats.SpecFloat.
-From Ugo Require Import Base.Res Base.GoInt Base.GoFloat Value.PValue Value.Ops Conv.GoValue.
+From Ugo Require Import Base.Res Base.GoInt Base.GoFloat Value.PValue Value.Ops Conv.GoValue Skel.Skel.
 Definition byte_to_N := Byte.to_N.
 Definition byte_of_N := Byte.of_N.
 Extraction "ugomodel.ml"
   byte_to_N byte_of_N Z.of_N Z.to_N Z.add Z.mul Z.div_eucl Z.opp Z.ltb Z.eqb Z.pow
   f64_of_bits bits_of_f64 f32_of_bits
   to_object to_object_alt to_interface
-  binop vm_equal vm_not_equal unop.
+  binop vm_equal vm_not_equal unop
+  run_program sem_program.
